@@ -209,7 +209,11 @@ Section Keys.
         end
     end.
 
-  (* AppendNew of an ordered map: keys converted with StringToType *)
+  (* AppendNew of an ordered map: keys converted by the schema of the key leaf (stringToKeyType), as
+     for Go maps, since fix 7d0d94c2; before it they went through StringToType on the Go key type
+     (KeyCodec.string_to_gotype: no unions of several kinds, no decimal64), which the guards of the
+     ordered-list theorems still use: string_to_gotype agrees with string_to_key where it succeeds
+     (NodeFrameProofs.gotype_key_agree) *)
   Fixpoint make_ordered_entry (sfs : list (finfo * schema)) (keys : list str) (ek : list (str * str))
     : result (list scalar * list (str * tree)) :=
     match keys with
@@ -217,7 +221,7 @@ Section Keys.
     | k :: rest =>
         match al_find k ek, key_field sfs k with
         | Some s, Some (fi, SLeaf t _) =>
-            bind (string_to_gotype env t s) (fun v =>
+            bind (string_to_key env fo ko t s) (fun v =>
             bind (make_ordered_entry sfs rest ek) (fun r =>
               Ok (v :: fst r, field_set (go_names sfs) (f_go fi) (TLeaf v) (snd r))))
         | _, _ => Err
@@ -234,7 +238,7 @@ Section Keys.
         | Some s =>
             match key_field sfs k with
             | Some (_, SLeaf t _) =>
-                bind (string_to_gotype env t s) (fun _ => bind (ordered_keys_parse sfs rest ek) (fun n => Ok (S n)))
+                bind (string_to_key env fo ko t s) (fun _ => bind (ordered_keys_parse sfs rest ek) (fun n => Ok (S n)))
             | _ => Err
             end
         end
@@ -418,7 +422,7 @@ Section Node.
             | SList true keys _ _ sfs, TList es =>
                 (* retrieveNodeOrderedList: the path keys are converted first, the map key is compared *)
                 let ek := ekeys e0 in
-                bind (ordered_keys_parse env sfs keys ek) (fun _ =>
+                bind (ordered_keys_parse env fo ko sfs keys ek) (fun _ =>
                   (fix all (l : list (list scalar * tree)) : result (list gnode) :=
                      match l with
                      | [] => Ok []
@@ -617,7 +621,7 @@ Section Node.
                 end
             | SList true keys _ _ sfs, TList es =>
                 let ek := ekeys e0 in
-                match ordered_keys_parse env sfs keys ek with
+                match ordered_keys_parse env fo ko sfs keys ek with
                 | Ok nparsed =>
                     (fix all (l : list (list scalar * tree)) (acc : list (list scalar * tree)) (n : nat) : option tree * result nat :=
                        match l with
@@ -625,7 +629,7 @@ Section Node.
                            if Nat.eqb n O && s_init o then
                              if negb (Nat.eqb nparsed (length keys)) then (Some (TList acc), Err)
                              else
-                               match make_ordered_entry env sfs keys ek with
+                               match make_ordered_entry env fo ko sfs keys ek with
                                | Ok (mk, nfs) =>
                                    match tl_find mk acc with
                                    | Some _ => (Some (TList acc), Err)          (* AppendNew: duplicate key *)
@@ -785,7 +789,7 @@ Section Node.
                 end
             | SList true keys _ _ sfs, TList es =>
                 let ek := ekeys e0 in
-                match ordered_keys_parse env sfs keys ek with
+                match ordered_keys_parse env fo ko sfs keys ek with
                 | Ok _ =>
                     (fix all (l : list (list scalar * tree)) (acc : list (list scalar * tree)) : option tree * result unit :=
                        match l with
